@@ -11,4 +11,5 @@ import StunVerif.Props.C08
 #print axioms StunVerif.C08.reencode_exact
 #print axioms StunVerif.C08.src_type_codes
 #print axioms StunVerif.C08.src_decode_ranges
+#print axioms StunVerif.C08.src_field_constants
 #print axioms StunVerif.C08.accept_in_range
